@@ -472,10 +472,13 @@ def route_algebra_rules(run):
             ok_rng = bool(rng) and all(q.render(f, c['args'][0]) == pos and q.render(f, c['args'][1]).endswith('hops.begin()') and q.render(f, c['args'][2]).endswith('hops.end()') for c in rng)
             rev = _reversing_loops(f)
             loops = [l for l in f.all_nodes() if l['k'] in ('rangefor', 'for', 'while')]
+            # element-wise front insertion is order-preserving when the other route is walked backwards (rbegin..rend)
+            back = [l for l in f.all_nodes() if l['k'] == 'for' and any(x['k'] == 'call' and (q.callee_name(x) or '').split('::')[-1] in ('rbegin', 'crbegin') for x in walk(l)) and
+                    any(c_['k'] == 'call' and (q.canon_op(f, c_) == 'push_front' or (q.callee_name(c_) or '').split('::')[-1] in ('push_front', 'emplace_front', 'prepend')) for c_ in walk(l.get('body') or l))]
             if name == 'append':
                 ok = ok_rng or (bool(loops) and not rev)
             else:
-                ok = ok_rng and not rev
+                ok = (ok_rng or bool(back)) and not rev
             why = ('each hop of the other route is inserted at the front in forward iteration (line %s): the hops end up in REVERSE order, so a packet crosses e.g. the modem queue before the NAT instead of after it' % rev[0][1].get('l')) if rev else \
                   'the other route\'s hops are not inserted as the range [r.hops.begin(), r.hops.end()) at %s' % pos
             run.check(ok, 'R2k', 'route-order', '%s::%s%s' % (R, name, f.sig), f.loc(), why, 'the other route\'s hops are inserted in order at %s' % pos)
